@@ -340,12 +340,12 @@ def compare_result(mres, result):
     return compare_item(mres, result)
 
 
-def hosts_for(part, head, k):
+def hosts_for(part, head, k, all_hosts=True):
     if part == 'item':
         hs = ['formula', 'matrix']
         if head['samples'] == 1 and head['failable'] == 0 and not head['corr']:
             hs.append('numerical')
-        return hs
+        return hs if all_hosts else [hs[k % len(hs)]]
     if part == 'single':
         return [['formula', 'matrix', 'numerical'][k % 3]]
     return [['formula', 'matrix'][k % 2]]
@@ -378,7 +378,7 @@ def replay_states(states, extra):
         head = decode(ch)[0]
         if st['vd'] != '':
             n_pred += 1
-        for host in hosts_for(part, head, k):
+        for host in hosts_for(part, head, k, extra.get('all_hosts', True)):
             k += 1
             result, err, meta = run_vector(part, ch, host)
             n_calls += 1
@@ -400,6 +400,8 @@ def replay_states(states, extra):
                                      'model_verdict': st['vd']}]
             else:
                 c[0] += 1
+                if len(ch) < len(c[1]['ch']):       # keep the shortest vector as the representative
+                    c[1] = {'part': part, 'host': host, 'ch': ch, 'result': brief(result), 'model_verdict': st['vd']}
             keys.add((part, meta['cls'], st['vd'], tuple(sorted((i['ok'], i['cls']) for i in rec['items']))))
     return {'terminal': n_term, 'calls': n_calls, 'predicted_ill_formed': n_pred, 'classes': classes, 'drift': drift,
             'keys': sorted(keys)}
@@ -543,6 +545,8 @@ def gen_formula(rng, sub=False):
         d['kw']['wrong_msg'] = 'NOTE90'
     if rng.random() < 0.15:
         d['kw']['tolerance'] = rng.choice(['1%', 0, 0.5])
+    if any(isinstance(a, dict) and isinstance(a.get('expect'), dict) and a['expect']['comparer'] == 'linear' for a in answers):
+        d['kw']['samples'] = rng.choice([3, 4, 5])
     d['inputs'] = mutate_formula(rng, rng.choice(texts))
     return d
 
@@ -576,7 +580,7 @@ def gen_matrix(rng, sub=False):
         kw['suppress_matrix_messages'] = True
     if rng.random() < 0.3:
         kw['wrong_msg'] = 'NOTE90'
-    if rng.random() < 0.2:
+    if any(t.startswith('[[') for t in texts) or rng.random() < 0.2:
         kw['max_array_dim'] = 2
     t = rng.choice(texts)
     variants = {'[1,2]': ['[1,3]', '[2,1]', '[0,0]', '[1,2,3]', '[1,2]+[1,2,3]', '5', '[[1,2]]', '[1,2]*1'],
@@ -607,6 +611,7 @@ def gen_singlelist(rng, sub=False, depth=0):
     kind = rng.choice(['string', 'formula', 'numerical', 'table'] + (['nested'] if depth == 0 else []))
     delim = ';' if depth else rng.choice([',', ',', ';', '|'])
     if kind == 'nested':
+        delim = rng.choice([',', '|'])
         inner = gen_singlelist(rng, True, depth + 1)
         subd = inner
         n = rng.randint(1, 3)
@@ -705,7 +710,7 @@ def gen_sum(rng, sub=False):
     author = rng.choice([{'lower': '1', 'upper': '5', 'summand': 'n^2', 'summation_variable': 'n'},
                          {'lower': '0', 'upper': '4', 'summand': '2*k+x', 'summation_variable': 'k'},
                          {'lower': '1', 'upper': 'infty', 'summand': '1/2^n', 'summation_variable': 'n'},
-                         {'lower': '0', 'upper': '6', 'summand': 'x^n/fact(n)', 'summation_variable': 'n'}])
+                         {'lower': '0', 'upper': '6', 'summand': 'x^n/(n+1)', 'summation_variable': 'n'}])
     positions = rng.choice([None, {'lower': 1, 'upper': 2, 'summand': 3}, {'summand': 1}, {'summand': 2, 'lower': 1},
                             {'summation_variable': 1, 'lower': 2, 'upper': 3, 'summand': 4}])
     pos = positions or {'lower': 1, 'upper': 2, 'summand': 3, 'summation_variable': 4}
@@ -1042,7 +1047,8 @@ def run_replay(ctx, variant):
         d = os.path.join(ctx.scratch, 'cases_%s%s' % (part, variant))
         ctx.tlc('graders/MC_ResultPipeline.tla', 'graders/MC_ResultPipeline_%s_%s%s.cfg' % (part, ctx.tier, variant),
                 dump=d, timeout=3000, deadlock=True)
-        res = dump.parallel(d + '.dump', 'engine.adapters.c01', 'replay_states', extra={'part': part})
+        res = dump.parallel(d + '.dump', 'engine.adapters.c01', 'replay_states',
+                            extra={'part': part, 'all_hosts': not ctx.quick})
         os.remove(d + '.dump')
         for r in res:
             for k in stats:
@@ -1053,6 +1059,8 @@ def run_replay(ctx, variant):
             for text, (cnt, ex) in r['classes'].items():
                 if text in classes:
                     classes[text][0] += cnt
+                    if len(ex['ch']) < len(classes[text][1]['ch']):
+                        classes[text][1] = ex
                 else:
                     classes[text] = [cnt, ex]
     return classes, drift, stats
@@ -1120,7 +1128,14 @@ def run(ctx):
         raise Machinery('random driver produced no returned value for %s' % vac)
 
     rej = traces.validate(ctx, 'graders/ResultShapeTrace.tla', 'graders/ResultShapeTrace.cfg', records, timeout=3000)
-    for rid in sorted(rej):
+    ctx.extra['rejected_records'] = {
+        'replay_shapes': sum(1 for i in rej if i in owner), 'replay_calls': sum(owner[i][1] for i in rej if i in owner),
+        'random_calls': sum(1 for i in rej if i not in owner)}
+    # simplest cases first (they become the replay files), replayed vectors and random cases alternating
+    a = sorted((i for i in rej if i in owner), key=lambda i: (len(owner[i][2]['ch']), i))
+    b = sorted((i for i in rej if i not in owner), key=lambda i: (len(json.dumps(descs[i]['case'], default=str)), i))
+    order = [x for pair in zip(a, b) for x in pair] + a[len(b):] + b[len(a):]
+    for rid in order:
         clause = rej[rid]
         if rid in owner:
             _, cnt, ex = owner[rid]
